@@ -473,7 +473,11 @@ def dmCondition (ops : DoubleOps D) (dm : DM D) (text : Str) (id : Nat) : DM D Ã
   match dmExecuteInternal ops dm text id with
   | (dm, .ok r) =>
     match dm.st.get r.id with
-    | .int v => if v == i64Min then (dm, .panic .absOverflow) else (dm, .ok (v != 0))
+    | .int v =>
+      -- the result cell is locked while `v.abs()` runs
+      if v == i64Min then
+        ({ dm with st := { dm.st with held := r.id :: dm.st.held } }, .panic .absOverflow)
+      else (dm, .ok (v != 0))
     | .dbl v => (dm, .ok (!(ops.isNaN v || ops.eq (ops.abs v) (ops.ofInt 0))))
     | .source s _ => (dm, .ok (!s.isEmpty))
     | .str s => (dm, .ok (!s.isEmpty))
